@@ -9,33 +9,29 @@ import RModel.Lemmas.HistoryTree
 /-
   C10 — History is a consistent append-only record under any operation sequence.   (property theorems only)
 
-  Full statement: `C10_full` below (a `def … : Prop`; still FALSE — two kernel-evaluated witnesses remain:
-  `C10_witness_undo_older`, `C10_witness_redo_partial`).
+  The model has four switchable checks (`Cfg`): `earlyDupCheck` (c3d511b), `redoOnce` (07a4584), and the two proposed
+  pre-validations `undoPrevalidate`, `redoPrevalidate` (seeded/_fixes/c10_undo_prevalidate.diff, c10_redo_prevalidate.diff).
+  `Cfg.current` is REGENERATED from the source (Gen/HistoryFlags.lean); the driver runs it.  Every theorem below is
+  stated for an arbitrary `cfg` with explicit hypotheses on its flags (or on a fixed named configuration), so the file
+  checks before and after a pre-validation lands; `current_has_repairs` ties the two committed repairs to the code.
 
-  A. Proved for EVERY tree side `ops`, every start state, every command list, every clock schedule (`tick`s), and for
-     the code with or without the two repairs c3d511b / 07a4584 (`cfg`):
-    * `append_only`            the history after a run has the history before it as a prefix;
-    * `step_appends`, `one_entry_per_success`   a command leaves `entries` alone or appends exactly one entry, and
-                               appends one iff it reports success;
-    * `fresh_id_partial`, `ids_nodup`   an appended id is not in the history it is appended to (`add_entry`);
-    * `rejected_unchanged`     a rejected command changes nothing at all;
-    * `undo_eligibility`, `redo_eligibility`   what the implementation tests before it undoes / redoes.
-  B. Proved for the code as it is (`Cfg.current`), all sequences:
-    * `duplicate_id_changes_nothing`   a rename / redo whose id is already in the history leaves the world unchanged
-                               (same second, or the unseparated concatenation `ab→c` / `a→bc`);
-    * `failed_only_by_partial_apply`   the only way a rename / redo fails after a change is the tree side stopping
-                               half-way (`noPartial`, C04's subject) — never a duplicate id;
-    * `redo_only_once`, `redo_never_again`   a redo succeeds only on an id that has no redo entry, and once it has one
-                               every later `redo <id>` of any run is rejected with the world unchanged.
-  C. `refines_spec_partial`: under the guard `G10` (checked command by command along the run) and the round-trip law of
-     the tree side, every command conforms to the abstract history.  `G10` has three clauses left, one per remaining
-     way out of the property: `noPartial`, `undoInPlace` (tree = post-state of the addressed operation),
-     `redoInPlace` (tree = pre-state).  Freshness of ids and "undo only while applied / redo only while undone" are no
-     longer assumed: they are consequences (`Lemmas/HistoryStatus.lean`).
-  D. What the two repairs removed, as theorems about the code before them (`Cfg.beforeFixes`):
-     `same_second_before_fix`, `concat_collision_before_fix`, `redo_twice_before_fix`, `redo_id_collision_before_fix`,
-     each next to the statement of what the same sequence does now; and each repair is needed on its own
-     (`early_check_alone_keeps_redo_twice`, `redo_once_alone_keeps_same_second`).
+  Full statement: `C10_full cfg` (a `def … : Prop`).  `C10_full_false_without_prevalidation`: false for the code without
+  the pre-validations (witnesses `undo_older_without_prevalidation`, `redo_partial_without_prevalidation`).
+
+  A. every `cfg`, every tree side, every start state, command list and clock schedule:
+     `append_only`, `step_appends`, `one_entry_per_success`, `fresh_id_partial`, `ids_nodup`, `rejected_unchanged`,
+     `undo_eligibility`, `redo_eligibility`, `revert_ids_wellformed`.
+  B. consequences of single checks, all sequences:
+     `duplicate_id_changes_nothing`, `failed_only_by_partial_apply` (earlyDupCheck); `redo_only_once`, `redo_never_again`
+     (redoOnce); `redo_atomic` (earlyDupCheck + redoPrevalidate): a redo that does not succeed changes nothing;
+     `undo_atomic`, `undo_atomic_all_runs` (undoPrevalidate): an undo that does not succeed changes nothing.
+  C. `refines_spec_partial` (earlyDupCheck + redoOnce): under the guard `G10` and the round-trip law of the tree side every
+     command conforms to the abstract history.  `G10`: `noPartial` (a rename's apply does not stop half-way: C04),
+     `undoInPlace`, `redoInPlace` (tree = post- / pre-state of the addressed operation).  With the pre-validations the
+     in-place clauses are no longer needed for "or is rejected leaving tree and history unchanged" (that part is B,
+     unconditional); they remain only for "the tree is exactly the recorded pre- or post-state", which for an undo/redo that
+     succeeds out of place is not what the history implies anyway (the check's oracle uses the per-file reading there).
+  D. before / after theorems for the four repaired defects and for the two proposed pre-validations.
 -/
 namespace C10
 open History HistorySpec
@@ -112,42 +108,76 @@ theorem fresh_of_injective (ops : Ops Tree Plan Backup H)
     hasId es (.plan (ops.hash key now)) = false :=
   History.fresh_of_injective ops hinj es key now h
 
--- B. the code as it is ------------------------------------------------------------------------------------------
+-- B. consequences of the single checks ---------------------------------------------------------------------------
+
+/-- ids of the form `revert-<j>-…` always belong to entries that revert `j`, along every run from an empty history -/
+theorem revert_ids_wellformed (cfg : Cfg) (ops : Ops Tree Plan Backup H) (t : Tree) (clock : Nat) (cs : List (Cmd H)) :
+    History.RevForm (run cfg ops (init t clock : World Tree Plan Backup H) cs).1.entries :=
+  History.run_revForm cfg ops _ cs (by intro e he; simp [init] at he)
 
 /-- c3d511b.  A rename whose id is already in the history — equal concatenated terms in the same second — changes
-    nothing at all and does not report success; likewise a redo whose `redo-<id>-<now>` is already there. -/
-theorem duplicate_id_changes_nothing (ops : Ops Tree Plan Backup H) (w : World Tree Plan Backup H) :
+    nothing at all and does not report success; likewise `apply_plan` under any id that is already there (redo). -/
+theorem duplicate_id_changes_nothing (cfg : Cfg) (hE : cfg.earlyDupCheck = true) (ops : Ops Tree Plan Backup H)
+    (w : World Tree Plan Backup H) :
     (∀ s r, hasId w.entries (.plan (ops.hash (s ++ r) w.clock)) = true →
-      (step .current ops w (.rename s r)).1 = w ∧ (step .current ops w (.rename s r)).2 ≠ .ok) ∧
-    (∀ id p, hasId w.entries id = true → applyWithId .current ops w id p = (w, .rejected)) :=
-  ⟨fun s r h => History.stepRename_dup_current ops w s r h,
-   fun id p h => History.applyWithId_dup_current ops w id p h⟩
+      (step cfg ops w (.rename s r)).1 = w ∧ (step cfg ops w (.rename s r)).2 ≠ .ok) ∧
+    (∀ id p, hasId w.entries id = true → applyWithId cfg ops w id p = (w, .rejected)) :=
+  ⟨fun s r h => History.stepRename_dup_current cfg hE ops w s r h,
+   fun id p h => History.applyWithId_dup_current cfg hE ops w id p h⟩
 
 /-- The only way a rename fails after a change is the tree side stopping half-way; the same for `apply_plan`
-    under any id (hence for redo). -/
-theorem failed_only_by_partial_apply (ops : Ops Tree Plan Backup H) (w : World Tree Plan Backup H) :
-    (∀ s r, (step .current ops w (.rename s r)).2 = .failed →
+    under any id. -/
+theorem failed_only_by_partial_apply (cfg : Cfg) (hE : cfg.earlyDupCheck = true) (ops : Ops Tree Plan Backup H)
+    (w : World Tree Plan Backup H) :
+    (∀ s r, (step cfg ops w (.rename s r)).2 = .failed →
       ∃ t', ops.apply w.tree (ops.scan w.tree s r) = .partly t') ∧
-    (∀ id p, (applyWithId .current ops w id p).2 = .failed → ∃ t', ops.apply w.tree p = .partly t') :=
-  ⟨fun s r h => History.stepRename_failed_current ops w s r h,
-   fun id p h => History.applyWithId_failed_current ops w id p h⟩
+    (∀ id p, (applyWithId cfg ops w id p).2 = .failed → ∃ t', ops.apply w.tree p = .partly t') :=
+  ⟨fun s r h => History.stepRename_failed_current cfg hE ops w s r h,
+   fun id p h => History.applyWithId_failed_current cfg hE ops w id p h⟩
 
 /-- 07a4584.  A redo succeeds only on an id that has no redo entry yet, and gives it one. -/
-theorem redo_only_once (ops : Ops Tree Plan Backup H) (w : World Tree Plan Backup H) (t : Target H)
-    (h : (step .current ops w (.redo t)).2 = .ok) :
+theorem redo_only_once (cfg : Cfg) (hR : cfg.redoOnce = true) (ops : Ops Tree Plan Backup H)
+    (w : World Tree Plan Backup H) (t : Target H) (h : (step cfg ops w (.redo t)).2 = .ok) :
     ∃ i, resolve w.entries false t = some i ∧ hasRedoOf w.entries i = false ∧
-      hasRedoOf (step .current ops w (.redo t)).1.entries i = true :=
-  History.stepRedo_ok_current ops w t h
+      hasRedoOf (step cfg ops w (.redo t)).1.entries i = true :=
+  History.stepRedo_ok_current cfg hR ops w t h
 
 /-- … and from then on, whatever commands follow, `redo <id>` is rejected with the world unchanged. -/
-theorem redo_never_again (ops : Ops Tree Plan Backup H) (w : World Tree Plan Backup H) (i : EId H)
-    (h : hasRedoOf w.entries i = true) (cs : List (Cmd H)) :
-    step .current ops (run .current ops w cs).1 (.redo (.id i)) = ((run .current ops w cs).1, .rejected) := by
-  have hp := History.hasRedoOf_prefix _ _ i (History.run_prefix .current ops w cs) h
-  show stepRedo .current ops _ (.id i) = _
-  by_cases hid : hasId (run .current ops w cs).1.entries i = true
-  · exact History.stepRedo_redone_current ops _ (.id i) i (by simp [resolve, hid]) hp
+theorem redo_never_again (cfg : Cfg) (hR : cfg.redoOnce = true) (ops : Ops Tree Plan Backup H)
+    (w : World Tree Plan Backup H) (i : EId H) (h : hasRedoOf w.entries i = true) (cs : List (Cmd H)) :
+    step cfg ops (run cfg ops w cs).1 (.redo (.id i)) = ((run cfg ops w cs).1, .rejected) := by
+  have hp := History.hasRedoOf_prefix _ _ i (History.run_prefix cfg ops w cs) h
+  show stepRedo cfg ops _ (.id i) = _
+  by_cases hid : hasId (run cfg ops w cs).1.entries i = true
+  · exact History.stepRedo_redone_current cfg hR ops _ (.id i) i (by simp [resolve, hid]) hp
   · unfold stepRedo; simp [resolve, hid]
+
+/-- PROPOSED redo pre-validation (with the early id check): in ANY state a redo either succeeds or changes nothing —
+    not the tree, not the history, not the stores.  No guard. -/
+theorem redo_atomic (cfg : Cfg) (hE : cfg.earlyDupCheck = true) (hP : cfg.redoPrevalidate = true)
+    (ops : Ops Tree Plan Backup H) (w : World Tree Plan Backup H) (t : Target H)
+    (h : (step cfg ops w (.redo t)).2 ≠ .ok) : (step cfg ops w (.redo t)).1 = w := by
+  rcases History.stepRedo_cases cfg ops w t with h' | h' | h'
+  · exact absurd h'.1 h
+  · exact h'.2
+  · exact absurd h'.1 (History.stepRedo_never_failed cfg hE hP ops w t)
+
+/-- PROPOSED undo pre-validation: in any state whose revert ids are well-formed an undo either succeeds or changes
+    nothing. -/
+theorem undo_atomic (cfg : Cfg) (hU : cfg.undoPrevalidate = true) (ops : Ops Tree Plan Backup H)
+    (w : World Tree Plan Backup H) (t : Target H) (hF : History.RevForm w.entries)
+    (h : (step cfg ops w (.undo t)).2 ≠ .ok) : (step cfg ops w (.undo t)).1 = w := by
+  rcases History.stepUndo_cases cfg ops w t with h' | h' | h'
+  · exact absurd h'.1 h
+  · exact h'.2
+  · exact absurd h'.1 (History.stepUndo_never_failed cfg hU ops w t hF)
+
+/-- … hence after ANY command sequence from an empty history, with any clock schedule. -/
+theorem undo_atomic_all_runs (cfg : Cfg) (hU : cfg.undoPrevalidate = true) (ops : Ops Tree Plan Backup H)
+    (tr : Tree) (clock : Nat) (cs : List (Cmd H)) (t : Target H)
+    (h : (step cfg ops (run cfg ops (init tr clock) cs).1 (.undo t)).2 ≠ .ok) :
+    (step cfg ops (run cfg ops (init tr clock) cs).1 (.undo t)).1 = (run cfg ops (init tr clock) cs).1 :=
+  undo_atomic cfg hU ops _ t (revert_ids_wellformed cfg ops tr clock cs) h
 
 -- C. refinement ------------------------------------------------------------------------------------------------
 
@@ -155,26 +185,27 @@ theorem redo_never_again (ops : Ops Tree Plan Backup H) (w : World Tree Plan Bac
     round-trip law, every command of every sequence from an empty history conforms to the abstract history:
     it succeeds into the state the history implies with exactly one fresh entry, or changes neither tree nor history;
     undo only while applied, redo only while undone. -/
-def C10_full : Prop :=
+def C10_full (cfg : Cfg) : Prop :=
   ∀ (Tree Plan Backup H : Type) [DecidableEq H] (ops : Ops Tree Plan Backup H), RoundTrip ops →
     ∀ (t : Tree) (clock : Nat) (cs : List (Cmd H)),
-      AllConform ops (init t clock : World Tree Plan Backup H) ([] : Spec Tree H) cs
+      AllConform cfg ops (init t clock : World Tree Plan Backup H) ([] : Spec Tree H) cs
 
 /-- Refinement under the guard: for every tree side with the round-trip law, every start tree, clock and command
     list whose steps all satisfy `G10`, every command conforms to the abstract history. -/
-theorem refines_spec_partial [DecidableEq Tree] (ops : Ops Tree Plan Backup H) (hRT : RoundTrip ops)
-    (t : Tree) (clock : Nat) (cs : List (Cmd H))
-    (hG : Guarded ops (init t clock : World Tree Plan Backup H) ([] : Spec Tree H) cs = true) :
-    AllConform ops (init t clock : World Tree Plan Backup H) ([] : Spec Tree H) cs :=
-  History.guarded_conform ops hRT cs _ _ (History.inv_init ops t clock) hG
+theorem refines_spec_partial [DecidableEq Tree] (cfg : Cfg) (hE : cfg.earlyDupCheck = true) (hR : cfg.redoOnce = true)
+    (ops : Ops Tree Plan Backup H) (hRT : RoundTrip ops) (t : Tree) (clock : Nat) (cs : List (Cmd H))
+    (hG : Guarded cfg ops (init t clock : World Tree Plan Backup H) ([] : Spec Tree H) cs = true) :
+    AllConform cfg ops (init t clock : World Tree Plan Backup H) ([] : Spec Tree H) cs :=
+  History.guarded_conform cfg hE hR ops hRT cs _ _ (History.inv_init ops t clock) hG
 
 /-- One guarded step from any state satisfying the invariant (what the induction uses).  In particular: an undo
     that succeeds addresses an operation that is applied in the abstract history, a redo one that is undone — without
     the guard saying so. -/
-theorem guarded_step_conforms [DecidableEq Tree] (ops : Ops Tree Plan Backup H) (hRT : RoundTrip ops)
+theorem guarded_step_conforms [DecidableEq Tree] (cfg : Cfg) (hE : cfg.earlyDupCheck = true) (hR : cfg.redoOnce = true)
+    (ops : Ops Tree Plan Backup H) (hRT : RoundTrip ops)
     (w : World Tree Plan Backup H) (s : Spec Tree H) (c : Cmd H) (hI : History.Inv ops w s)
-    (hG : G10 ops w s c = true) : Conforms ops w s c :=
-  (History.inv_step ops hRT w s c hI hG).1
+    (hG : G10 ops w s c = true) : Conforms cfg ops w s c :=
+  (History.inv_step cfg hE hR ops hRT w s c hI hG).1
 
 /-- The eligibility scans of the implementation decide the abstract status, in every state reached inside the guard:
     an entry without a revert carries an applied operation, a reverted and not-yet-redone entry an undone one. -/
@@ -202,29 +233,60 @@ def renB : C := .rename b!"alpha" b!"gamma"
 def idA : EId HistoryTree.H := .plan (b!"foo_barbaz_qux", 0)
 def idB : EId HistoryTree.H := .plan (b!"alphagamma", 0)
 
--- the two remaining ways out of the property (code as it is) ----------------------------------------------------
+/-- the two committed repairs are in the code the translator read (if one disappears this stops checking) -/
+theorem current_has_repairs : Cfg.current.earlyDupCheck = true ∧ Cfg.current.redoOnce = true := by decide
+
+-- the two remaining ways out of the property, and what the proposed pre-validations do about them -----------------
 
 /-- Undo of a non-latest operation whose reverse patch no longer applies to one of its files: the files whose
     patch applies are restored (f1), the other is left alone with a `.rej` next to it (f3), exit ≠ 0, no entry:
     a failed command that changed the tree. -/
-theorem C10_witness_undo_older :
-    (run .current ops (start t0) [renA, .tick, renB, .tick, .undo (.id idA)]).2
+theorem undo_older_without_prevalidation :
+    (run .withoutPrevalidation ops (start t0) [renA, .tick, renB, .tick, .undo (.id idA)]).2
       = [.ok, .noop, .ok, .noop, .failed] ∧
-    (run .current ops (start t0) [renA, .tick, renB, .tick, .undo (.id idA)]).1.entries.length = 2 ∧
-    (run .current ops (start t0) [renA, .tick, renB, .tick, .undo (.id idA)]).1.tree
+    (run .withoutPrevalidation ops (start t0) [renA, .tick, renB, .tick, .undo (.id idA)]).1.entries.length = 2 ∧
+    (run .withoutPrevalidation ops (start t0) [renA, .tick, renB, .tick, .undo (.id idA)]).1.tree
       = [(b!"f1.txt", b!"foo_bar one\n"), (b!"f2.txt", b!"gamma x\n"),
          (b!"f3.txt", b!"use baz_qux and gamma\n"), (b!"f3.txt.rej", b!"REJ")] := by decide
 
 /-- A redo that is not "in place": B, undo B, then A' moves the offsets in f3; redoing B re-edits f2, then the
     stored plan fails validation on f3 and the command stops: exit ≠ 0, f2 changed, no entry (content edits are
     not rolled back — C04's defect, reached through a stale stored plan). -/
-theorem C10_witness_redo_partial :
-    (run .current ops (start t0) [renB, .tick, .undo .latest, .tick, renA', .tick, .redo (.id idB)]).2
+theorem redo_partial_without_prevalidation :
+    (run .withoutPrevalidation ops (start t0) [renB, .tick, .undo .latest, .tick, renA', .tick, .redo (.id idB)]).2
       = [.ok, .noop, .ok, .noop, .ok, .noop, .failed] ∧
-    (run .current ops (start t0) [renB, .tick, .undo .latest, .tick, renA', .tick, .redo (.id idB)]).1.entries.length = 3 ∧
-    (run .current ops (start t0) [renB, .tick, .undo .latest, .tick, renA', .tick, .redo (.id idB)]).1.tree
+    (run .withoutPrevalidation ops (start t0) [renB, .tick, .undo .latest, .tick, renA', .tick, .redo (.id idB)]).1.entries.length = 3 ∧
+    (run .withoutPrevalidation ops (start t0) [renB, .tick, .undo .latest, .tick, renA', .tick, .redo (.id idB)]).1.tree
       = [(b!"f1.txt", b!"foo_bar_bar one\n"), (b!"f2.txt", b!"gamma x\n"),
          (b!"f3.txt", b!"use foo_bar_bar and alpha\n")] := by decide
+
+/-- WITH the undo pre-validation the same undo is refused and nothing at all is touched (no `.rej`, no partial
+    restore); once B is undone, A can be undone. -/
+theorem undo_older_prevalidated_rejected :
+    (run .full ops (start t0) [renA, .tick, renB, .tick, .undo (.id idA)]).2 = [.ok, .noop, .ok, .noop, .rejected] ∧
+    (run .full ops (start t0) [renA, .tick, renB, .tick, .undo (.id idA)]).1.tree
+      = (run .full ops (start t0) [renA, .tick, renB, .tick]).1.tree ∧
+    (run .full ops (start t0) [renA, .tick, renB, .tick, .undo (.id idA), .undo .latest, .tick, .undo (.id idA)]).2
+      = [.ok, .noop, .ok, .noop, .rejected, .ok, .noop, .ok] ∧
+    (run .full ops (start t0) [renA, .tick, renB, .tick, .undo (.id idA), .undo .latest, .tick, .undo (.id idA)]).1.tree
+      = HistoryTree.normalize t0 := by decide
+
+/-- WITH the redo pre-validation the stale redo is refused and f2 stays as it was. -/
+theorem redo_partial_prevalidated_rejected :
+    (run .full ops (start t0) [renB, .tick, .undo .latest, .tick, renA', .tick, .redo (.id idB)]).2
+      = [.ok, .noop, .ok, .noop, .ok, .noop, .rejected] ∧
+    (run .full ops (start t0) [renB, .tick, .undo .latest, .tick, renA', .tick, .redo (.id idB)]).1.tree
+      = (run .full ops (start t0) [renB, .tick, .undo .latest, .tick, renA', .tick]).1.tree := by decide
+
+/-- each pre-validation is needed for its own command -/
+theorem undo_prevalidation_alone_keeps_redo_partial :
+    (run { Cfg.withoutPrevalidation with undoPrevalidate := true } ops (start t0)
+      [renB, .tick, .undo .latest, .tick, renA', .tick, .redo (.id idB)]).2
+      = [.ok, .noop, .ok, .noop, .ok, .noop, .failed] := by decide
+
+theorem redo_prevalidation_alone_keeps_undo_older :
+    (run { Cfg.withoutPrevalidation with redoPrevalidate := true } ops (start t0)
+      [renA, .tick, renB, .tick, .undo (.id idA)]).2 = [.ok, .noop, .ok, .noop, .failed] := by decide
 
 -- what the repairs removed: the code before them vs. the code as it is -----------------------------------------------
 
@@ -238,10 +300,10 @@ theorem same_second_before_fix :
 
 /-- NOW: the second one is rejected and the whole world is as the first left it; one second apart both succeed. -/
 theorem same_second_now_rejected :
-    (run .current ops (start t0) [renA', renA']).2 = [.ok, .rejected] ∧
-    (run .current ops (start t0) [renA', renA']).1.tree = (run .current ops (start t0) [renA']).1.tree ∧
-    (run .current ops (start t0) [renA', renA']).1.entries = (run .current ops (start t0) [renA']).1.entries ∧
-    (run .current ops (start t0) [renA', .tick, renA']).2 = [.ok, .noop, .ok] := by decide
+    (run .withoutPrevalidation ops (start t0) [renA', renA']).2 = [.ok, .rejected] ∧
+    (run .withoutPrevalidation ops (start t0) [renA', renA']).1.tree = (run .withoutPrevalidation ops (start t0) [renA']).1.tree ∧
+    (run .withoutPrevalidation ops (start t0) [renA', renA']).1.entries = (run .withoutPrevalidation ops (start t0) [renA']).1.entries ∧
+    (run .withoutPrevalidation ops (start t0) [renA', .tick, renA']).2 = [.ok, .noop, .ok] := by decide
 
 /-- BEFORE c3d511b: the id hashes the CONCATENATION of search and replacement, so `ab→c` and `a→bc` in one second
     collide, and the second had already edited the tree when it found out. -/
@@ -252,8 +314,8 @@ theorem concat_collision_before_fix :
 
 /-- NOW: they still collide (the hash input is unchanged), but the second command is refused untouched. -/
 theorem concat_collision_now_rejected :
-    (run .current ops (start [(b!"g.txt", b!"ab a\n")]) [.rename b!"ab" b!"c", .rename b!"a" b!"bc"]).2 = [.ok, .rejected] ∧
-    (run .current ops (start [(b!"g.txt", b!"ab a\n")]) [.rename b!"ab" b!"c", .rename b!"a" b!"bc"]).1.tree
+    (run .withoutPrevalidation ops (start [(b!"g.txt", b!"ab a\n")]) [.rename b!"ab" b!"c", .rename b!"a" b!"bc"]).2 = [.ok, .rejected] ∧
+    (run .withoutPrevalidation ops (start [(b!"g.txt", b!"ab a\n")]) [.rename b!"ab" b!"c", .rename b!"a" b!"bc"]).1.tree
       = [(b!"g.txt", b!"c a\n")] := by decide
 
 /-- BEFORE 07a4584: rename, undo, redo, redo — the second redo was attempted again because `redo_renaming` only looked
@@ -269,11 +331,11 @@ theorem redo_twice_before_fix :
 /-- NOW: the second redo is rejected, the tree stays as the first redo left it; undoing the redo entry and redoing
     THAT still works (the chain `X, redo-X-…, redo-redo-X-…-…`). -/
 theorem redo_twice_now_rejected :
-    (run .current ops (start t0) [renA', .tick, .undo .latest, .tick, .redo .latest, .tick, .redo .latest]).2
+    (run .withoutPrevalidation ops (start t0) [renA', .tick, .undo .latest, .tick, .redo .latest, .tick, .redo .latest]).2
       = [.ok, .noop, .ok, .noop, .ok, .noop, .rejected] ∧
-    get (run .current ops (start t0) [renA', .tick, .undo .latest, .tick, .redo .latest, .tick, .redo .latest]).1.tree b!"f1.txt"
+    get (run .withoutPrevalidation ops (start t0) [renA', .tick, .undo .latest, .tick, .redo .latest, .tick, .redo .latest]).1.tree b!"f1.txt"
       = some b!"foo_bar_bar one\n" ∧
-    (run .current ops (start t0) [renA', .tick, .undo .latest, .tick, .redo .latest, .tick, .undo .latest, .tick,
+    (run .withoutPrevalidation ops (start t0) [renA', .tick, .undo .latest, .tick, .redo .latest, .tick, .undo .latest, .tick,
       .redo .latest, .tick, .redo .latest]).2
       = [.ok, .noop, .ok, .noop, .ok, .noop, .ok, .noop, .ok, .noop, .rejected] := by decide
 
@@ -287,20 +349,20 @@ theorem redo_id_collision_before_fix :
 
 /-- NOW: rejected, tree unchanged. -/
 theorem redo_id_collision_now_rejected :
-    (run .current ops (start t0) [renA', .tick, .undo .latest, .tick, .redo .latest, .redo .latest]).2
+    (run .withoutPrevalidation ops (start t0) [renA', .tick, .undo .latest, .tick, .redo .latest, .redo .latest]).2
       = [.ok, .noop, .ok, .noop, .ok, .rejected] ∧
-    get (run .current ops (start t0) [renA', .tick, .undo .latest, .tick, .redo .latest, .redo .latest]).1.tree b!"f1.txt"
+    get (run .withoutPrevalidation ops (start t0) [renA', .tick, .undo .latest, .tick, .redo .latest, .redo .latest]).1.tree b!"f1.txt"
       = some b!"foo_bar_bar one\n" := by decide
 
 /-- Each repair is needed on its own: the early id check alone does not stop a repeated redo in another second … -/
 theorem early_check_alone_keeps_redo_twice :
-    (run { earlyDupCheck := true, redoOnce := false } ops (start t0)
+    (run { Cfg.beforeFixes with earlyDupCheck := true } ops (start t0)
       [renA', .tick, .undo .latest, .tick, .redo .latest, .tick, .redo .latest]).2
       = [.ok, .noop, .ok, .noop, .ok, .noop, .ok] := by decide
 
 /-- … and "redo only once" alone does not stop the same-second rename. -/
 theorem redo_once_alone_keeps_same_second :
-    (run { earlyDupCheck := false, redoOnce := true } ops (start t0) [renA', renA']).2 = [.ok, .failed] := by decide
+    (run { Cfg.beforeFixes with redoOnce := true } ops (start t0) [renA', renA']).2 = [.ok, .failed] := by decide
 
 -- the refinement on the concrete tree side ---------------------------------------------------------------------------
 
@@ -308,30 +370,42 @@ theorem redo_once_alone_keeps_same_second :
 theorem roundtrip_concrete : RoundTrip HistoryTree.ops := HistoryTree.roundTrip
 
 /-- … so for it the refinement holds outright for every guarded sequence. -/
-theorem refines_spec_concrete (t : HistoryTree.Tree) (clock : Nat) (cs : List C)
-    (hG : Guarded ops (init t clock) [] cs = true) : AllConform ops (init t clock) [] cs :=
-  refines_spec_partial ops HistoryTree.roundTrip t clock cs hG
+theorem refines_spec_concrete (cfg : Cfg) (hE : cfg.earlyDupCheck = true) (hR : cfg.redoOnce = true)
+    (t : HistoryTree.Tree) (clock : Nat) (cs : List C)
+    (hG : Guarded cfg ops (init t clock) [] cs = true) : AllConform cfg ops (init t clock) [] cs :=
+  refines_spec_partial cfg hE hR ops HistoryTree.roundTrip t clock cs hG
+
+/-- … in particular for the code as it is, whichever pre-validations it has. -/
+theorem refines_spec_current (t : HistoryTree.Tree) (clock : Nat) (cs : List C)
+    (hG : Guarded .current ops (init t clock) [] cs = true) : AllConform .current ops (init t clock) [] cs :=
+  refines_spec_concrete .current current_has_repairs.1 current_has_repairs.2 t clock cs hG
 
 /-- Non-vacuity of the guard: renames of three different plans, undo and redo by `latest` and by id, one second apart
     and within one second, repeated redos, duplicates — all inside `G10` … -/
-example : Guarded ops (start t0) []
+example : Guarded .withoutPrevalidation ops (start t0) []
     [renA, renA, .tick, renB, .tick, .undo .latest, .tick, .redo .latest, .redo .latest, .tick, .redo .latest, .tick,
      .undo .latest, .tick, .undo (.id idA), .tick, .redo (.id idA), .tick, .redo (.id idA),
      .redo (.id (.plan (b!"nope", 7))), .undo (.id (.plan (b!"nope", 7))), renA', renB] = true := by decide
 
 /-- … the sequences of the repaired defects are now inside it … -/
-example : Guarded ops (start t0) [] [renA', renA'] = true ∧
-    Guarded ops (start t0) [] [renA', .tick, .undo .latest, .tick, .redo .latest, .tick, .redo .latest, .redo .latest] = true := by
+example : Guarded .withoutPrevalidation ops (start t0) [] [renA', renA'] = true ∧
+    Guarded .withoutPrevalidation ops (start t0) [] [renA', .tick, .undo .latest, .tick, .redo .latest, .tick, .redo .latest, .redo .latest] = true := by
   decide
 
 /-- … while the two remaining witnesses leave it exactly at the offending command. -/
-example : Guarded ops (start t0) [] [renA, .tick, renB, .tick, .undo (.id idA)] = false ∧
-    Guarded ops (start t0) [] [renA, .tick, renB, .tick] = true := by decide
-example : Guarded ops (start t0) [] [renB, .tick, .undo .latest, .tick, renA', .tick, .redo (.id idB)] = false ∧
-    Guarded ops (start t0) [] [renB, .tick, .undo .latest, .tick, renA', .tick] = true := by decide
+example : Guarded .withoutPrevalidation ops (start t0) [] [renA, .tick, renB, .tick, .undo (.id idA)] = false ∧
+    Guarded .withoutPrevalidation ops (start t0) [] [renA, .tick, renB, .tick] = true := by decide
+example : Guarded .withoutPrevalidation ops (start t0) [] [renB, .tick, .undo .latest, .tick, renA', .tick, .redo (.id idB)] = false ∧
+    Guarded .withoutPrevalidation ops (start t0) [] [renB, .tick, .undo .latest, .tick, renA', .tick] = true := by decide
 
-/-- The full statement is still false: the undo-older witness is a counterexample for the flat-file tree side. -/
-theorem C10_full_false : ¬ C10_full := by
+/-- the same guard statements hold with the pre-validations: the guard does not depend on them -/
+example : Guarded .full ops (start t0) [] [renA, .tick, renB, .tick, .undo (.id idA)] = false ∧
+    Guarded .full ops (start t0) [] [renA, renA, .tick, renB, .tick, .undo .latest, .tick, .redo .latest, .redo .latest] = true := by
+  decide
+
+/-- Without the pre-validations the full statement is false: the undo-older witness is a counterexample for the
+    flat-file tree side. -/
+theorem C10_full_false_without_prevalidation : ¬ C10_full .withoutPrevalidation := by
   intro h
   have h2 := h HistoryTree.Tree HistoryTree.Plan HistoryTree.Backup HistoryTree.H ops HistoryTree.roundTrip
     (HistoryTree.normalize t0) 0 [renA, .tick, renB, .tick, .undo (.id idA)]
@@ -344,10 +418,10 @@ theorem C10_full_false : ¬ C10_full := by
   · revert htree; decide
 
 /-- Non-vacuity of the eligibility theorems: undo and redo do succeed in the model, and are refused when they should. -/
-example : (step .current ops (run .current ops (start t0) [renA, .tick]).1 (.undo .latest)).2 = .ok := by decide
-example : (step .current ops (run .current ops (start t0) [renA, .tick, .undo .latest, .tick]).1 (.redo .latest)).2 = .ok := by decide
-example : (step .current ops (run .current ops (start t0) [renA]).1 (.redo .latest)).2 = .rejected := by decide
-example : hasRedoOf (run .current ops (start t0) [renA, .tick, .undo .latest, .tick, .redo .latest]).1.entries idA = true := by decide
+example : (step .withoutPrevalidation ops (run .withoutPrevalidation ops (start t0) [renA, .tick]).1 (.undo .latest)).2 = .ok := by decide
+example : (step .withoutPrevalidation ops (run .withoutPrevalidation ops (start t0) [renA, .tick, .undo .latest, .tick]).1 (.redo .latest)).2 = .ok := by decide
+example : (step .withoutPrevalidation ops (run .withoutPrevalidation ops (start t0) [renA]).1 (.redo .latest)).2 = .rejected := by decide
+example : hasRedoOf (run .withoutPrevalidation ops (start t0) [renA, .tick, .undo .latest, .tick, .redo .latest]).1.entries idA = true := by decide
 
 end witnesses
 
